@@ -34,7 +34,7 @@ ASSUMPTIONS = [
     "only the five pattern classes whose gitignore semantics are unambiguous are generated (no negation, '**', classes, escapes)",
     "extensions are restricted to ones whose Pygments mapping is unique (.h is avoided); whole-name patterns of other lexers (Makefile.*, Kconfig*, BUILD.bazel) are in the name pool and in the reference table, which is cross-checked against Pygments at run time",
     "exclusions given 'by option' are placed in Configuration.exclude and the config file is loaded with Configuration.load(root), as codelimit.__main__.scan does",
-    "the built-in exclusion list is the one transcribed in vf/ref/gitignore.py",
+    "the built-in exclusion list is read statically from the literal assigned to DEFAULT_EXCLUDES in Scanner.py (the property does not enumerate it); the transcription in vf/ref/gitignore.py is the fallback",
 ]
 FLOOR = {"quick": 200, "thorough": 4000}
 
